@@ -330,20 +330,21 @@ func (p *clientPeer) run() {
 // ---- raw peers: hand-written RTSP over a TCP socket
 
 type rawPeer struct {
-	spec   PeerSpec
-	addr   string
-	co     *coord
-	delay  time.Duration
-	done   chan struct{} // mcast2: closed when the racing SETUP was answered or failed
-	seed   uint64
-	frames atomic.Int64 // interleaved frames / UDP packets received
-	udp    [2]net.PacketConn
-	flow   string // non-empty: packets did not flow when they had to
-	ops    []string
-	conn   net.Conn
-	br     *bufio.Reader
-	notes  []string
-	played bool
+	spec     PeerSpec
+	addr     string
+	co       *coord
+	delay    time.Duration
+	done     chan struct{} // mcast2: closed when the racing SETUP was answered or failed
+	seed     uint64
+	frames   atomic.Int64 // interleaved frames / UDP packets received
+	udp      [2]net.PacketConn
+	flowWait time.Duration
+	flow     string // non-empty: packets did not flow when they had to
+	ops      []string
+	conn     net.Conn
+	br       *bufio.Reader
+	notes    []string
+	played   bool
 }
 
 func (r *rawPeer) request(method, url string, cseq int, extra string) (map[string]string, error) {
@@ -518,7 +519,7 @@ func (r *rawPeer) drainTCP() {
 
 func (r *rawPeer) waitFlow(what string) {
 	start := r.frames.Load()
-	deadline := time.Now().Add(1500 * time.Millisecond)
+	deadline := time.Now().Add(r.flowWait)
 	for time.Now().Before(deadline) {
 		if r.frames.Load() >= start+3 {
 			return
@@ -544,7 +545,7 @@ func (r *rawPeer) waitFlow(what string) {
 		}
 	}
 	if r.frames.Load() < start+3 {
-		r.flow = fmt.Sprintf("%s: %d packets within 1.5 s after [%s]", what, r.frames.Load()-start, strings.Join(r.ops, " "))
+		r.flow = fmt.Sprintf("%s: %d packets within %v after [%s]", what, r.frames.Load()-start, r.flowWait, strings.Join(r.ops, " "))
 	}
 }
 
